@@ -127,61 +127,61 @@ macro_rules! core_mult {
 
 // @h prop=C05 unwind=7 timeout=2400 what=add_core,1x1..3x3_limbs,all_limb_values,vs_u128
 core_add!(core_add_1x1, 1, 1);
-// @h prop=C05 unwind=7 timeout=120
+// @h prop=C05 unwind=7 timeout=900
 core_add!(core_add_1x2, 1, 2);
-// @h prop=C05 unwind=7 timeout=120
+// @h prop=C05 unwind=7 timeout=900
 core_add!(core_add_2x1, 2, 1);
-// @h prop=C05 unwind=7 timeout=120
+// @h prop=C05 unwind=7 timeout=900
 core_add!(core_add_2x2, 2, 2);
-// @h prop=C05 unwind=7 timeout=120
+// @h prop=C05 unwind=7 timeout=900
 core_add!(core_add_1x3, 1, 3);
-// @h prop=C05 unwind=7 timeout=120
+// @h prop=C05 unwind=7 timeout=900
 core_add!(core_add_3x1, 3, 1);
-// @h prop=C05 unwind=7 timeout=120
+// @h prop=C05 unwind=7 timeout=900
 core_add!(core_add_2x3, 2, 3);
-// @h prop=C05 unwind=7 timeout=120
+// @h prop=C05 unwind=7 timeout=900
 core_add!(core_add_3x2, 3, 2);
-// @h prop=C05 unwind=7 timeout=120
+// @h prop=C05 unwind=7 timeout=900
 core_add!(core_add_3x3, 3, 3);
 
 // @h prop=C05 unwind=7 timeout=2400 what=sub_core,|a-b|_and_swapped_flag,vs_u128
 core_sub!(core_sub_1x1, 1, 1);
-// @h prop=C05 unwind=7 timeout=120
+// @h prop=C05 unwind=7 timeout=900
 core_sub!(core_sub_1x2, 1, 2);
-// @h prop=C05 unwind=7 timeout=120
+// @h prop=C05 unwind=7 timeout=900
 core_sub!(core_sub_2x1, 2, 1);
-// @h prop=C05 unwind=7 timeout=120
+// @h prop=C05 unwind=7 timeout=900
 core_sub!(core_sub_2x2, 2, 2);
-// @h prop=C05 unwind=7 timeout=120
+// @h prop=C05 unwind=7 timeout=900
 core_sub!(core_sub_1x3, 1, 3);
-// @h prop=C05 unwind=7 timeout=120
+// @h prop=C05 unwind=7 timeout=900
 core_sub!(core_sub_3x1, 3, 1);
-// @h prop=C05 unwind=7 timeout=120
+// @h prop=C05 unwind=7 timeout=900
 core_sub!(core_sub_2x3, 2, 3);
-// @h prop=C05 unwind=7 timeout=120
+// @h prop=C05 unwind=7 timeout=900
 core_sub!(core_sub_3x2, 3, 2);
-// @h prop=C05 unwind=7 timeout=120
+// @h prop=C05 unwind=7 timeout=900
 core_sub!(core_sub_3x3, 3, 3);
 
 // @h prop=C05 unwind=7 timeout=2400 what=less_core_both_directions,vs_u128
 core_less!(core_less_1x1, 1, 1);
-// @h prop=C05 unwind=7 timeout=120
+// @h prop=C05 unwind=7 timeout=900
 core_less!(core_less_1x2, 1, 2);
-// @h prop=C05 unwind=7 timeout=120
+// @h prop=C05 unwind=7 timeout=900
 core_less!(core_less_2x2, 2, 2);
-// @h prop=C05 unwind=7 timeout=120
+// @h prop=C05 unwind=7 timeout=900
 core_less!(core_less_1x3, 1, 3);
-// @h prop=C05 unwind=7 timeout=120
+// @h prop=C05 unwind=7 timeout=900
 core_less!(core_less_2x3, 2, 3);
-// @h prop=C05 unwind=7 timeout=120
+// @h prop=C05 unwind=7 timeout=900
 core_less!(core_less_3x3, 3, 3);
 
 // family 2: schoolbook multiplication vs sum of partial products
 // @h prop=C05 unwind=8 timeout=2700 what=mult_core_vs_sum_of_32x32_partial_products,top_slack_limb_zero
 core_mult!(core_mult_1x1, 1, 1);
-// @h prop=C05 unwind=8 timeout=240
+// @h prop=C05 unwind=8 timeout=900
 core_mult!(core_mult_1x2, 1, 2);
-// @h prop=C05 unwind=8 timeout=240
+// @h prop=C05 unwind=8 timeout=900
 core_mult!(core_mult_2x1, 2, 1);
 // @h prop=C05 unwind=8 timeout=2400 mem=12
 core_mult!(core_mult_2x2, 2, 2);
@@ -258,11 +258,11 @@ macro_rules! pub_addsub {
 }
 // @h prop=C05 unwind=8 timeout=2700 what=BigNum::add/sub,signs_symbolic,result_value_vs_i128_and_normal_form
 pub_addsub!(pub_addsub_1x1, 1, 1);
-// @h prop=C05 unwind=8 timeout=300
+// @h prop=C05 unwind=8 timeout=900
 pub_addsub!(pub_addsub_1x2, 1, 2);
-// @h prop=C05 unwind=8 timeout=300
+// @h prop=C05 unwind=8 timeout=900
 pub_addsub!(pub_addsub_2x1, 2, 1);
-// @h prop=C05 unwind=8 timeout=300
+// @h prop=C05 unwind=8 timeout=900
 pub_addsub!(pub_addsub_2x2, 2, 2);
 // @h prop=C05 unwind=9 timeout=2700 mem=12 tier=thorough
 pub_addsub!(pub_addsub_3x3, 3, 3);
@@ -291,9 +291,9 @@ macro_rules! pub_cmp {
 }
 // @h prop=C05 unwind=14 timeout=2700 what=eq,partial_cmp,neg,minus,signs_symbolic
 pub_cmp!(pub_cmp_1x1, 1, 1);
-// @h prop=C05 unwind=14 timeout=300
+// @h prop=C05 unwind=14 timeout=900
 pub_cmp!(pub_cmp_1x2, 1, 2);
-// @h prop=C05 unwind=14 timeout=300
+// @h prop=C05 unwind=14 timeout=900
 pub_cmp!(pub_cmp_2x2, 2, 2);
 // @h prop=C05 unwind=18 timeout=2400 tier=thorough
 pub_cmp!(pub_cmp_3x3, 3, 3);
@@ -680,7 +680,7 @@ macro_rules! assign_agree {
 }
 // @h prop=C05 unwind=8 timeout=2700 what=a+=b_equals_a+b_structurally
 assign_agree!(assign_add_1x1, 1, 1, +, +=);
-// @h prop=C05 unwind=8 timeout=300
+// @h prop=C05 unwind=8 timeout=900
 assign_agree!(assign_sub_1x1, 1, 1, -, -=);
 // @h prop=C05 unwind=8 timeout=2400 mem=12
 assign_agree!(assign_add_2x2, 2, 2, +, +=);
